@@ -289,6 +289,8 @@ def elements(stream):
             seen[u] = k + 1
             stack.append((u, k, i))
         elif e[0] == 'E':
+            if not stack:
+                continue          # an ill-nested stream (reported by the other clauses)
             u, k, j = stack.pop()
             out.append((u, k, j, i))
     return out
